@@ -671,12 +671,6 @@ fn f29_trigger(l: &Lexed) -> bool {
     l.order.windows(2).any(|w| !w[0].0 && w[1].0 && l.toks[w[0].1].bytes == b"-")
 }
 
-/// F30: a comment directly followed by a `...` token (a variadic type pack is written without
-/// breaking the line after a line comment)
-fn f30_trigger(l: &Lexed) -> bool {
-    l.order.windows(2).any(|w| w[0].0 && !w[1].0 && l.toks[w[1].1].bytes == b"..." && !is_long_comment(&l.coms[w[0].1].0))
-}
-
 /// The separators between consecutive items of `out` (items as the reference lexer found them):
 /// Some(description) when one of them cannot have been written by the generator alone.
 fn leftover_whitespace(out: &str, l: &Lexed) -> Option<String> {
@@ -971,14 +965,13 @@ fn judge(ctx: &mut Ctx, case: &Case, witness_mode: bool) -> Outcome {
             o.hist("remove_crlf", if crlf_sensitive { "CRLF file and a pattern whose verdict would change with the CR" } else { "other" });
             let spaces = rule.has_spaces();
             // (F27 is fixed: line comments such as `--[abc[ x` are no longer excused)
-            let f27 = spaces && (f29_trigger(&lbase) || f30_trigger(&lbase));
+            // (F30 is fixed too: a line comment directly before `...` is no longer excused)
+            let f27 = spaces && f29_trigger(&lbase);
             if spaces {
                 o.hist(
                     "remove_spaces_region",
                     if f29_trigger(&lbase) {
                         "`-` directly before a comment (F29)"
-                    } else if f30_trigger(&lbase) {
-                        "line comment directly before `...` (F30)"
                     } else {
                         "inside"
                     },
@@ -987,7 +980,7 @@ fn judge(ctx: &mut Ctx, case: &Case, witness_mode: bool) -> Outcome {
             if !witness_mode {
                 for (name, what) in &fails {
                     if f27 {
-                        o.count("oracle_fails_in_F29_F30_region");
+                        o.count("oracle_fails_in_F29_region");
                         continue;
                     }
                     o.violate("oracle", &format!("remove_{}", name), what.clone(), case, true);
